@@ -157,6 +157,19 @@ def sid(u):
     return None if u is None else str(u)
 
 
+SPELLINGS = {'zero': '0%d', 'space': ' %d', 'plus': '+%d', 'float': '%d.0', 'tail': '%d '}
+
+
+def spell(u, kind=None):
+    """An identifier as the client writes it.  SQLite compares the text with INTEGER affinity, so these all address the
+    same row (the model knows identifiers by value only)."""
+    if u is None:
+        return None
+    if kind and u >= 0:
+        return SPELLINGS[kind] % u
+    return str(u)
+
+
 def protected_attrs(spec):
     """Template attributes only the server may assign (spec['prot']): the engine must refuse the request."""
     pr = spec.get('prot')
@@ -220,11 +233,11 @@ def build_item(spec, ver):
         return kdrv.derive_key([sid(b) for b in spec['base_uids']], method=enums.DerivationMethod.HASH,
                                params=derivation_params(), attrs=attrs, otype=t)
     if o == 'destroy':
-        return kdrv.destroy(sid(spec['tgt_uid']))
+        return kdrv.destroy(spell(spec['tgt_uid'], spec.get('sp')))
     if o == 'addr':
-        return build_addr(spec['k'], sid(spec['tgt_uid']), ver, spec.get('variant', 0))
+        return build_addr(spec['k'], spell(spec['tgt_uid'], spec.get('sp')), ver, spec.get('variant', 0))
     if o == 'getwrapped':
-        return kdrv.get(sid(spec['tgt_uid']), wrap=wrap_spec(sid(spec['w_uid'])))
+        return kdrv.get(spell(spec['tgt_uid'], spec.get('sp')), wrap=wrap_spec(sid(spec['w_uid'])))
     if o == 'locate':
         return kdrv.locate()
     if o == 'locatep':
@@ -251,7 +264,7 @@ def classify(spec, it):
         if o in CREATING:
             return ('RIssued', [canon(p['unique_identifier'])])
         if o == 'destroy':
-            return ('RDestroyed', canon(p['unique_identifier']))
+            return ('RDestroyed', numeric(p['unique_identifier']))
         if o in ('locate', 'locatep'):
             return ('RLocated', sorted(canon(x) for x in (p.get('unique_identifiers') or [])))
         if o == 'discover':
@@ -272,6 +285,11 @@ def classify(spec, it):
     if o == 'destroy':
         return ('RRefused', None)
     return ('RFound', None)
+
+
+def numeric(s):
+    """The integer an identifier spelling denotes for SQLite's INTEGER affinity ('01', ' 1', '+1', '1.0' are all 1)."""
+    return int(float(str(s).strip()))
 
 
 def canon(s):
@@ -569,12 +587,24 @@ class Runner:
                          {'identifier': u})
         if not dead_now:
             return
-        # frame: a request whose only successful state-changing items are Destroys may touch only rows keyed by those identifiers
-        pure = all(cl[0] not in ('RIssued',) and not (cl[0] == 'RFound' and c.get('gate') and c['op'] == 'addr' and
-                   c['k'] in ('AActivate', 'ARevoke', 'ADeleteAttribute', 'AModifyAttribute', 'ASetAttribute'))
-                   for c, cl in zip(conc, classes))
-        if not pure:
-            return
+        # frame: a request with a successful Destroy may change only table rows that belong to the identifiers it destroyed,
+        # created or successfully modified (full raw rows of every table: state, masks, names, values ... of every other object)
+        touched, other_writes = set(dead_now), False
+        for c, cl in zip(conc, classes):
+            if cl[0] == 'RIssued':
+                touched.update(cl[1])
+                other_writes = True
+            if cl[0] == 'RFound' and c.get('gate') and c['op'] == 'addr' and c['k'] in (
+                    'AActivate', 'ARevoke', 'ADeleteAttribute', 'AModifyAttribute', 'ASetAttribute'):
+                other_writes = True
+                u = c.get('tgt_uid')
+                if u is None:
+                    try:
+                        u = numeric(cl[1])
+                    except (TypeError, ValueError):
+                        u = None
+                if u is not None:
+                    touched.add(u)
         after = self.eng.dump()
         for t in sorted(set(before) | set(after)):
             b = [json.dumps(r, sort_keys=True) for r in before.get(t, [])]
@@ -582,9 +612,10 @@ class Runner:
             diff = [json.loads(x) for x in set(b) ^ set(a)]
             for row in diff:
                 keyed = [v for k, v in row.items() if 'uid' in k.lower()]
-                if not any(v in dead_now for v in keyed):
+                if (keyed and not any(v in touched for v in keyed)) or (not keyed and not other_writes):
                     self.hit({'kind': 'frame', 'table': t},
-                             'Destroy of %r changed a row of table %s that does not belong to it: %r' % (dead_now, t, row), ev_index)
+                             'a request that destroyed %r (and wrote to %r) changed a row of table %s that belongs to neither: %r' % (
+                                 dead_now, sorted(touched - set(dead_now)), t, row), ev_index)
                     return
         self.ctx.count('oracle.frame_checked')
 
@@ -805,6 +836,23 @@ def gen_history(ctx, rng, run, length, ckp_budget, kill_budget=2):
             run.request(pick_who(rng), pick_version(rng), False, [creating(cheap=True)])
             run.request(who, (1, 2), False, [{'op': 'locate'}])
             n += 3
+        elif x < 0.21 and tr.live():                   # Destroy of an object in a chosen state while others stand by; other spellings
+            ctx.count('pattern.destroy_in_state_with_bystanders')
+            rec = rng.choice(tr.live())
+            who, tgt = rec['owner'], ['lit', rec['uid']]
+            if rec.get('pol') and rng.random() < 0.3:
+                who = rng.randrange(4) + 100
+            prep = rng.choice(['preactive', 'deactivated', 'compromised', 'compromised', 'active_then_compromised'])
+            sp1, sp2 = rng.choice([None, None] + list(SPELLINGS)), rng.choice([None] + list(SPELLINGS))
+            steps = {'preactive': [], 'deactivated': [('AActivate', 0), ('ARevoke', 0)], 'compromised': [('ARevoke', 1)],
+                     'active_then_compromised': [('AActivate', 0), ('ARevoke', 1)]}[prep]
+            run.request(who, (1, 2), False, [{'op': 'addr', 'k': 'AGetAttributes', 'tgt': tgt, 'sp': sp1}])
+            for k_, var in steps:
+                run.request(who, (1, 2), False, [{'op': 'addr', 'k': k_, 'tgt': tgt, 'variant': var}])
+            run.request(who, ver, False, [{'op': 'destroy', 'tgt': tgt, 'sp': sp2}])
+            run.request(who, (1, 2), True, [{'op': 'addr', 'k': 'AGetAttributes', 'tgt': tgt, 'sp': sp1},
+                                            {'op': 'addr', 'k': 'AGet', 'tgt': tgt, 'sp': rng.choice([None] + list(SPELLINGS))}])
+            n += 3 + len(steps)
         elif x < 0.22:                                 # restart, then create
             ctx.count('pattern.restart_then_create')
             run.restart(dispose=rng.random() < 0.5)
@@ -868,7 +916,8 @@ def gen_history(ctx, rng, run, length, ckp_budget, kill_budget=2):
         else:                                          # an addressed operation on its own
             tgt = gen_target(rng, tr)
             run.request(owner_of(tr, eng, tgt, rng), ver, False,
-                        [{'op': 'addr', 'k': rng.choice(KINDS), 'tgt': tgt, 'variant': rng.randrange(4)}])
+                        [{'op': 'addr', 'k': rng.choice(KINDS), 'tgt': tgt, 'variant': rng.randrange(4),
+                          'sp': rng.choice(list(SPELLINGS)) if rng.random() < 0.15 else None}])
             n += 1
 
 
@@ -937,6 +986,42 @@ def scenarios():
             sc.append(('req', 1, (1, 4), False, [dict(maker, prot=[kind])]))
     sc.append(('req', 1, (1, 2), False, [C]))
     out.append(sc)
+    # Destroy of an object in every state (Pre-Active, Deactivated, Compromised, Active->Compromised, stateless) while objects
+    # of every class stand by in every state; nothing but the destroyed object may change (raw rows of all tables)
+    R = lambda t: {'op': 'register', 't': t, 'good': True, 'rich': True}
+    sc = [('req', 0, (1, 2), False, [R(t)]) for t in ('TSym', 'TPub', 'TPriv', 'TSplit', 'TCert', 'TSecret', 'TOpaque')]
+    sc += [('req', 1, (1, 2), False, [{'op': 'ckp', 'good': True}]), ('req', 1, (1, 2), False, [C]),
+           ('req', 0, (1, 2), False, [G(['ref', 0], 'AActivate')]), ('req', 0, (1, 2), False, [G(['ref', 4], 'AActivate')]),
+           ('req', 1, (1, 2), False, [G(['ref', 9], 'AActivate')])]
+    victims = 10
+    for prep in ([], [('AActivate', 0), ('ARevoke', 0)], [('ARevoke', 1)], [('AActivate', 0), ('ARevoke', 1)]):
+        for maker in (C, R('TCert'), R('TSecret')):
+            sc.append(('req', 2, (1, 2), False, [maker]))
+            for k_, var in prep:
+                sc.append(('req', 2, (1, 2), False, [dict(G(['ref', victims], k_), variant=var)]))
+            sc.append(('req', 2, (1, 2), False, [D(['ref', victims])]))
+            sc.append(('req', 0, (1, 2), True, [G(['ref', 0], 'AGetAttributes'), G(['ref', 0], 'AEncrypt'), G(['ref', victims])]))
+            victims += 1
+    sc += [('req', 0, (1, 2), False, [D(['ref', 6])]), ('restart',),
+           ('req', 0, (1, 2), True, [G(['ref', 0], 'AGetAttributes'), G(['ref', 4], 'AGetAttributes')])]
+    out.append(sc)
+    # the same content registered again (same owner, another owner, after a Destroy, after a restart): always a new identifier
+    sc = []
+    for t in ('TCert', 'TSym', 'TPub', 'TPriv', 'TSplit', 'TSecret', 'TOpaque'):
+        sc += [('req', 0, (1, 2), False, [R(t)]), ('req', 0, (1, 2), False, [R(t)]), ('req', 1, (1, 2), False, [R(t)]),
+               ('req', 0, (1, 2), False, [D(['newest'])]), ('req', 0, (1, 2), False, [R(t)])]
+    sc += [('restart',)] + [('req', 0, (1, 4), False, [R(t)]) for t in ('TCert', 'TOpaque', 'TSym')] + [('req', 0, (1, 2), False, [{'op': 'locate'}])]
+    out.append(sc)
+    # an identifier written in several ways: address by one spelling, destroy by another, ask again by the first
+    sc = [('req', 0, (1, 2), False, [C]), ('req', 0, (1, 2), False, [C])]
+    for i_, (a_, b_) in enumerate((('zero', None), (None, 'float'), ('space', 'plus'), ('float', 'zero'), ('tail', 'tail'))):
+        sc += [('req', 0, (1, 2), False, [C]),
+               ('req', 0, (1, 2), False, [dict(G(['ref', 2 + i_], 'AGetAttributes'), sp=a_)]),
+               ('req', 0, (1, 2), False, [dict(D(['ref', 2 + i_]), sp=b_)]),
+               ('req', 0, (1, 2), True, [dict(G(['ref', 2 + i_], 'AGetAttributes'), sp=a_), dict(G(['ref', 2 + i_]), sp=b_), G(['ref', 2 + i_]),
+                                         dict(D(['ref', 2 + i_]), sp=a_)]),
+               ('req', 0, (1, 2), False, [dict(G(['ref', 0]), sp=a_)])]
+    out.append(sc)
     # paged Locate around a Destroy: an un-offset Locate before it, then the same client's Locates with an offset
     LP = lambda ft, off, mx: {'op': 'locatep', 'ft': ft, 'off': off, 'mx': mx}
     sc = [('req', 0, (1, 2), False, [C]) for _ in range(6)]
@@ -994,11 +1079,11 @@ def replay_events(run, events):
             skip_restart = False
         elif ev['ev'] == 'killed':
             it = ev['items'][0]
-            spec = {k: v for k, v in it.items() if k in ('op', 'good', 'rich', 't', 'bases', 'tgt', 'w', 'k', 'variant', 'pol', 'prot', 'vs', 'funcs', 'ft', 'off', 'mx')}
+            spec = {k: v for k, v in it.items() if k in ('op', 'good', 'rich', 't', 'bases', 'tgt', 'w', 'k', 'variant', 'pol', 'prot', 'vs', 'funcs', 'ft', 'off', 'mx', 'sp')}
             run.killed_request(ev['who'], tuple(ev['ver']), spec, ev['point'])
             skip_restart = True                        # killed_request records its own restart event
         else:
-            specs = [{k: v for k, v in it.items() if k in ('op', 'good', 'rich', 't', 'bases', 'tgt', 'w', 'k', 'variant', 'pol', 'prot', 'vs', 'funcs', 'ft', 'off', 'mx')}
+            specs = [{k: v for k, v in it.items() if k in ('op', 'good', 'rich', 't', 'bases', 'tgt', 'w', 'k', 'variant', 'pol', 'prot', 'vs', 'funcs', 'ft', 'off', 'mx', 'sp')}
                      for it in ev['items']]
             run.request(ev['who'], tuple(ev['ver']), ev['cont'], specs, locked=bool(ev.get('locked')))
 
